@@ -105,12 +105,35 @@ pub struct MatInfo {
     pub files: Vec<(DocInfo, Option<Box<MatInfo>>)>,
 }
 
+thread_local! {
+    /// One signature per (key, document) and process: randomised schemes (RSA-PSS, ECDSA) then
+    /// yield the same signature value for the genuine document and for its edited copy, which is
+    /// what an attacker who copies a signature block has.
+    static SIG_MEMO: std::cell::RefCell<HashMap<(String, String), Vec<u8>>> = std::cell::RefCell::new(HashMap::new());
+}
+
+fn sign_memo(meta: &MetadataWrapper, signer: &KeySpec) -> Vec<u8> {
+    let key = (format!("{:?}", signer), serde_json::to_string(meta).expect("to_string"));
+    if let Some(v) = SIG_MEMO.with(|m| m.borrow().get(&key).cloned()) {
+        return v;
+    }
+    let sk = private(signer);
+    let block = Metablock::new(meta.clone(), &[&*sk]).expect("harness: signing failed");
+    let bytes = block.signatures[0].value().as_bytes().to_vec();
+    SIG_MEMO.with(|m| {
+        let mut m = m.borrow_mut();
+        if m.len() > 4096 {
+            m.clear();
+        }
+        m.insert(key, bytes.clone());
+    });
+    bytes
+}
+
 fn signature_values(meta: &MetadataWrapper, sigs: &[SigEntry]) -> Vec<Value> {
     let mut out = vec![];
     for e in sigs {
-        let sk = private(&e.signer);
-        let block = Metablock::new(meta.clone(), &[&*sk]).expect("harness: signing failed");
-        let mut bytes = block.signatures[0].value().as_bytes().to_vec();
+        let mut bytes = sign_memo(meta, &e.signer);
         match &e.corrupt {
             None => {}
             Some(Corrupt::BitFlip(b)) => {
@@ -164,7 +187,59 @@ pub fn signed_text(meta: &MetadataWrapper, sigs: &[SigEntry], tamper: &Option<Tr
     }
 }
 
+fn has_tamper(w: &World) -> bool {
+    w.tamper.is_some()
+        || w.links.iter().any(|f| match &f.body {
+            Body::Link { tamper, .. } => tamper.is_some(),
+            Body::Sub { world, .. } => has_tamper(world),
+            Body::Garbage(_) => false,
+        })
+}
+
+fn has_inspections(w: &World) -> bool {
+    !w.layout.inspect.is_empty()
+        || w.links.iter().any(|f| match &f.body {
+            Body::Sub { world, .. } => has_inspections(world),
+            _ => false,
+        })
+}
+
+fn strip_tamper(w: &World) -> World {
+    let mut t = w.clone();
+    t.tamper = None;
+    for f in t.links.iter_mut() {
+        match &mut f.body {
+            Body::Link { tamper, .. } => *tamper = None,
+            Body::Sub { world, .. } => **world = strip_tamper(world),
+            Body::Garbage(_) => {}
+        }
+    }
+    t
+}
+
+/// Materialise `w` under `dir`. History: when some document of `w` was edited after signing,
+/// the same world *without* the edits (the genuine documents, carrying the very same signature
+/// values) is first written to `<dir>-genuine` and verified once with the layout's own signers,
+/// so that the edited copy is always presented to a process that has already seen - and
+/// accepted - the genuine one. The outcome of that priming call is not judged.
 pub fn write_world(w: &World, dir: &Path) -> MatInfo {
+    if has_tamper(w) && !has_inspections(w) {
+        let twin = strip_tamper(w);
+        let tdir = PathBuf::from(format!("{}-genuine", dir.display()));
+        let info = write_world_inner(&twin, &tdir);
+        let mut signers: Vec<KeySpec> = vec![];
+        for e in &twin.sigs {
+            if e.corrupt.is_none() && e.label.is_none() && !signers.contains(&e.signer) {
+                signers.push(e.signer.clone());
+            }
+        }
+        let _ = run_verify(&info, &own_ids(&signers), &tdir, None);
+        let _ = std::fs::remove_dir_all(&tdir);
+    }
+    write_world_inner(w, dir)
+}
+
+fn write_world_inner(w: &World, dir: &Path) -> MatInfo {
     let _ = std::fs::create_dir_all(dir);
     let meta = MetadataWrapper::Layout(w.layout.to_lib());
     let (layout_text, layout) = signed_text(&meta, &w.sigs, &w.tamper);
@@ -193,7 +268,7 @@ pub fn write_world(w: &World, dir: &Path) -> MatInfo {
                     Placement::OtherKeyDir(k) => dir.join(format!("{}.{}", f.step, prefix8(k))),
                     Placement::Named(n) => dir.join(n),
                 };
-                let inner = write_world(world, &sub);
+                let inner = write_world_inner(world, &sub);
                 let _ = std::fs::write(&path, &inner.layout_text);
                 files.push((inner.layout.clone(), Some(Box::new(inner))));
             }
